@@ -7,7 +7,7 @@ Import ListNotations.
 Open Scope Z_scope.
 
 (* the key bytes survive: canonical CBOR of ANY well-formed value re-encodes to itself after decoding *)
-Theorem C08_cbor_reencode : forall v rest, wf v ->
+Theorem C08_cbor_reencode : forall v rest, wfd v ->
   exists v', parse_cbor (cbor_enc v ++ rest) = Ok v' /\ cbor_enc v' = cbor_enc v.
 Proof. intros v rest W. exists v. split; [apply parse_cbor_enc; exact W|reflexivity]. Qed.
 Print Assumptions C08_cbor_reencode.
